@@ -95,6 +95,30 @@ def d1(chk, prog):
             ok = got == want and out.data.labels == slabels and [tuple(out.data.cols[c].v[i] for c in ("chromosome", "start", "end")) for i in range(len(skeys))] == list(skeys)
             ok = ok and list(samp.data.cols["rowid"].v) == [f"s{i}" for i in range(len(skeys))] and list(ref.data.cols["rowid"].v) == [f"r{i}" for i in range(len(rkeys))]
         tb.cell(ok, dict(case=label, raised=raised, reference_rows=got, result_labels=getattr(out.data, "labels", None) if isinstance(out, GA) else None, sample_labels=slabels))
+    # one reference used again after its rows were re-ordered (ref.sort(), or a derived table of the same length: as_dataframe / copy hand the metadata on):
+    # the second match is by the rows' current coordinates, whatever the first call may have left in the metadata
+    W.reset()
+    it = Interp(prog)
+    skeys = bins[:4]
+    samp = table(skeys, "s", [40 + 3 * i for i in range(4)])
+    ref1 = table(bins, "r", [7 * i + 1 for i in range(5)])
+    first = tb.guard(lambda: it.run(fi.qn, [ref1, samp]), "one reference matched twice: first call")
+    if first is not None:
+        rkeys2 = bins[::-1]
+        rows2 = [dict(chromosome=c, start=s_, end=e_, gene=f"q{i}", log2=Term.sym(f"q_{c}_{s_}_{e_}_{i}"), rowid=f"q{i}") for i, (c, s_, e_) in enumerate(rkeys2)]
+        ref2 = make_ga("CopyNumArray", rows2, dict(ref1.meta), index="any", exact=True, labels=[7 * i + 1 for i in range(5)])
+        try:
+            out2 = it.run(fi.qn, [ref2, samp])
+            got2 = list(out2.data.cols["rowid"].v) if isinstance(out2, GA) else repr(out2)[:60]
+        except Raised as r:
+            got2 = f"raised {r}"
+        except Undecided as u:
+            tb.undecided.append(f"one reference matched twice: {u}")
+            got2 = None
+        if got2 is not None:
+            want2 = [f"q{rkeys2.index(k)}" for k in skeys]
+            tb.cell(got2 == want2, dict(case="the same reference after its rows were reversed (metadata carried over from the first call)", reference_rows=got2, want=want2,
+                                        metadata_after_first_call=sorted(k_ for k_ in ref1.meta if k_ != "sample_id")))
     tb.done("the reference is not matched to the sample bin for bin by coordinates (or bad input is not refused)")
 
 
